@@ -18,6 +18,9 @@ Check(t) ==
     IF "driver_error" \in DOMAIN t THEN "driver-error"
     ELSE IF t.exc # "" THEN "model-failed:" \o t.exc
     ELSE IF ~t.input_unchanged THEN "input-tensor-modified"
+    \* the caller's Points held the input variables in another order than the model's input space: same result
+    ELSE IF "order" \in DOMAIN t /\ \E i \in DOMAIN t.order : ~(IF Sc(t).d = 1 THEN Close1(t.order[i].y, t.order[i].ys, 0) ELSE Close2(t.order[i].y, t.order[i].ys, 0))
+         THEN "result-depends-on-variable-order-of-input-points"
     ELSE IF ~InputShiftOK(t) THEN "driver-shift-mismatch"
     ELSE IF ~ShiftOK(t) THEN "not-shift-equivariant"
     \* the same object on a grid with one more node along the last axis: output on THAT grid, equivariant there
